@@ -101,7 +101,7 @@ GStep ==
      /\ \/ AppStart /\ UNCHANGED held
         \/ StreamPoll /\ UNCHANGED held
         \/ (Gate(3) \/ (held = "stuck" /\ Len(toBack) = MaxQueue)) /\ StreamLeave /\ UNCHANGED held     \* the lost-drop corner: try_send into a full queue
-        \/ Gate(FaultGate) /\ FaultNext /\ UNCHANGED held
+        \/ (Gate(FaultGate) \/ (fault # {} /\ Gate(3))) /\ FaultNext /\ UNCHANGED held     \* a second fault tends to follow the first at once
         \/ Gate(AbandonGate) /\ (\E h \in Ops : fe[h].st # "idle" /\ FeAbandon(h)) /\ UNCHANGED held
         \/ rt = "run" /\ (\E m \in OneText : PeerSend(m)) /\ UNCHANGED held
   \/ /\ held = "no" /\ st = "run"
